@@ -16,10 +16,12 @@ pub fn run_property(id: &str, tier: Tier) -> i32 {
     run::install_panic_hook();
     match id {
         "C01" => props::c01::run(tier),
+        "C03" => props::c03::run(tier),
         "C04" => props::c04::run(tier),
         "C05" => props::c05::run(tier),
         "C06" => props::c06::run(tier),
         "C07" => props::c07::run(tier),
+        "C08" => props::c08::run(tier),
         _ => {
             eprintln!("unknown property {id}");
             2
